@@ -52,8 +52,8 @@ func classifyErr(p *Plan, item gjson.Result) string {
 	if m := reFetchErr.FindStringSubmatch(msg); m != nil {
 		fid := -1
 		for _, f := range p.Fetches {
-			if f.DSName() == m[1] && f.ResponsePath() == m[2] {
-				fid = f.ID
+			if f.DSName() == m[1] && f.ResponsePath() == m[2] && (fid < 0 || f.ID < fid) {
+				fid = f.ID // the message names subgraph and path only: the lowest id stands for all fetches there
 			}
 		}
 		kind := 1
